@@ -32,7 +32,8 @@ KEYWORDS = ['BATCH', 'number of tasks is', 'BATCH_PER_SIMULATOR', 'PACKET_LENGTH
             'RESULTS ARE GIVEN', 'NORMAL COMPLETION', 'WARNING', 'ERROR', 'random generator']
 BOUNDS = {'quick': {'listings': 'ttsSimplePacket20.d.PARA (8.4 kB, parallel mode): EVERY byte offset (scan + Parser()); '
                                 'greenband / pertu_covariances / ttsSimplePacket20 (sequential): every byte of every line containing a scanner keyword and of the line after it',
-                    'parse of editions': 'last complete edition parsed and compared at every 16th offset of the PARA listing'},
+                    'parse of editions': 'last complete edition parsed and compared at every 16th offset of the PARA listing',
+                    'same path': 'one path rewritten with three states of the PARA listing (complete, two cuts) in every order, modification time free or forced equal'},
           'thorough': {'listings': 'as quick', 'parse of editions': 'last complete edition parsed and compared at every 4th offset of the PARA listing and at the key-line offsets of the others'}}
 ASSUMPTIONS = ['results of an edition = the parsed responses and batch data, without the file-level run data (file name, NORMAL COMPLETION flag) and the wall-clock timings',
                'prefixes of four shipped listings (one parallel-mode, three sequential-mode); synthetic listings are outside',
@@ -175,6 +176,64 @@ def make_harness(name, lo, hi, offsets, parse_every):
     return harness
 
 
+def _outcome(path):
+    from valjean.eponine.tripoli4.parse import Parser, ParserException
+    try:
+        p = Parser(path)
+        bns = list(p.batch_numbers())
+        last = _edition(p.parse_from_index(-1).res) if bns else None
+        return ('ok', bns, last)
+    except ParserException:
+        return ('own', None, None)
+    except Exception as e:      # noqa
+        return (f'{type(e).__name__}: {e}', None, None)
+
+
+def make_same_path_harness(name):
+    """"whatever was parsed earlier in the same process": ONE path is rewritten with successive states of a listing (complete, cut
+    inside a late edition, cut inside an early one, in a solver-chosen order -- a job killed and started again), its modification time
+    left alone or forced to the same second; after every rewrite the outcome (error kind, editions on offer, last edition) is the one the
+    same bytes give under a path never seen before"""
+    def harness(ex):
+        import itertools
+        data, _full = _complete(name)
+        cuts = [len(data), int(len(data) * 0.85), int(len(data) * 0.3), int(len(data) * 0.6)]
+        order = list(itertools.permutations(range(3)))[ex.choice(6, 'order-of-the-three-states')]
+        third = ex.choice(2, 'middle-state')          # 85 % / 60 %
+        same_second = ex.choice(2, 'modification-time-forced-to-the-same-second')
+        states = [cuts[0], cuts[1] if third == 0 else cuts[3], cuts[2]]
+        tmp = tempfile.mkdtemp(prefix='verif_c11s_')
+        try:
+            fresh = []
+            for i, k in enumerate(states):
+                pth = os.path.join(tmp, f'fresh{i}.res')
+                with open(pth, 'wb') as f:
+                    f.write(data[:k])
+                fresh.append(_outcome(pth))
+            ex.check(all(o[0] in ('ok', 'own') for o in fresh), 'opening-raises-only-the-parser-exception', detail=str([o[0] for o in fresh]))
+            path = os.path.join(tmp, 'listing.res')
+            good = True
+            why = ''
+            for i in order:
+                with open(path, 'wb') as f:
+                    f.write(data[:states[i]])
+                if same_second:
+                    os.utime(path, (1_600_000_000, 1_600_000_000))
+                got = _outcome(path)
+                if got[0] != fresh[i][0] or got[1] != fresh[i][1] or not deep_equal(got[2], fresh[i][2]):
+                    good = False
+                    why = f'state cut at {states[i]}: {got[0]} {got[1]} instead of {fresh[i][0]} {fresh[i][1]}'
+            ex.check(good, 'outcome-does-not-depend-on-what-was-parsed-before-at-the-same-path', detail=why)
+        finally:
+            shutil.rmtree(tmp, ignore_errors=True)
+    return harness
+
+
+def _job_same_path(name, timeout_ms, seed=0):
+    return run_sym('x', make_same_path_harness(name), timeout_ms=timeout_ms, seed=seed,
+                   require_checks=['outcome-does-not-depend-on-what-was-parsed-before-at-the-same-path'])
+
+
 def _job(name, lo, hi, use_keys, parse_every, timeout_ms, seed=0):
     offsets = None
     if use_keys:
@@ -204,6 +263,8 @@ def jobs(tier):
         for s in range((nkeys + per - 1) // per):          # EVERY key-line offset (shards of 700)
             out.append((f'{name}-keylines-{s}', _job, dict(name=name, lo=s * per, hi=s * per + per - 1, use_keys=True,
                                                           parse_every=(0 if tier == 'quick' else 64), timeout_ms=20000)))
+    for name in (('para',) if tier == 'quick' else ('para', 'mono')):
+        out.append((f'{name}-same-path-rewritten', _job_same_path, dict(name=name, timeout_ms=20000)))
     return out
 
 
@@ -211,6 +272,8 @@ def replay(rp):
     for j in jobs('thorough') + jobs('quick'):
         if j[0] == rp['job']:
             p = j[2]
+            if 'same-path' in j[0]:
+                return replay_sym(make_same_path_harness(p['name']), rp['inputs'])
             offsets = key_offsets(_complete(p['name'])[0]) if p['use_keys'] else None
             return replay_sym(make_harness(p['name'], p['lo'], p['hi'], offsets, p['parse_every']), rp['inputs'])
     raise KeyError(rp['job'])
